@@ -222,137 +222,191 @@ theorem recordVariants_ok {fs : List Field} {base : Option Expr}
     | none => simp at hv
     | some b => simp at hv; subst hv; exact hb b rfl
 
-theorem no_panic (pos : Nat) : ∀ fuel : Nat,
-    (∀ p st, visitPat pos fuel p st ≠ .panic) ∧
-    (∀ v st, (∀ x, v = some x → Variant.ok x = true) → visitVariant pos fuel v st ≠ .panic) ∧
-    (∀ e st, e.ok = true → visitExpr pos fuel e st ≠ .panic) := by
-  intro fuel
-  induction fuel with
-  | zero => refine ⟨?_, ?_, ?_⟩ <;> intros <;> simp [visitPat, visitVariant, visitExpr]
-  | succ n ih =>
-    obtain ⟨ihP, ihV, ihE⟩ := ih
-    refine ⟨?_, ?_, ?_⟩
-    · intro p st
-      cases p with
-      | leaf sp b => simp [visitPat]
-      | as_ sp b q => simp only [visitPat]; exact ihP _ _
-      | ctor sp len args =>
-        simp only [visitPat]
-        split
-        · simp
-        · split
-          · exact ihP _ _
-          · simp
-      | tuple sp elems =>
-        simp only [visitPat]
-        split
-        · exact ihP _ _
-        · simp
-    · intro v st hv
-      cases v with
-      | none => simp [visitVariant]
-      | some x =>
-        have hx := hv x rfl
-        cases x with
-        | pat p => simp only [visitVariant]; exact ihP _ _
-        | ident a => simp [visitVariant]
-        | field sp => simp [visitVariant]
-        | expr e => simp only [visitVariant]; exact ihE _ _ hx
-    · intro e st he
-      cases e with
-      | leaf sp => simp [visitExpr]
-      | emptyNode sp => simp [visitExpr]
-      | error sp => simp [visitExpr]
-      | one sp cs =>
-        simp only [visitExpr]
-        simp only [Expr.ok, Bool.and_eq_true] at he
-        split
-        · rename_i c hc
-          exact ihE _ _ (okList_mem he.2 c (select_mem _ _ _ _ hc))
-        · rename_i hnone
-          exfalso
-          have hne : cs ≠ [] := by
-            intro h; subst h; simp at he
-          exact select_total Expr.span pos cs hne hnone
-      | «infix» sp l op r =>
-        simp only [visitExpr]
-        simp only [Expr.ok, Bool.and_eq_true] at he
-        split
-        · simp
-        · exact ihE _ _ he.2
-        · exact ihE _ _ he.2
-        · exact ihE _ _ he.1
-      | proj sp e =>
-        simp only [visitExpr]
-        simp only [Expr.ok] at he
-        split
-        · simp
-        · exact ihE _ _ he
-      | annotated sp e =>
-        simp only [visitExpr]
-        simp only [Expr.ok] at he
-        exact ihE _ _ he
-      | lambda sp args body =>
-        simp only [visitExpr]
-        simp only [Expr.ok] at he
-        split
-        · simp
-        · exact ihE _ _ he
-      | letb sp isRec binds body =>
-        simp only [visitExpr]
-        simp only [Expr.ok, Bool.and_eq_true] at he
-        split
-        · rename_i b hb
-          apply ihV
-          intro x hx
-          have hbm : b ∈ binds := select_mem LBind.span pos binds b (by rw [hb])
-          have hbo := okBinds_mem he.1 b hbm
-          have hxm := select_mem _ _ _ _ hx
-          simp only [bindVariants, List.mem_cons, List.mem_append, List.mem_map,
-            List.not_mem_nil, or_false] at hxm
-          rcases hxm with rfl | ⟨a, _, rfl⟩ | rfl
-          · rfl
-          · rfl
-          · exact hbo
-        · exact ihE _ _ he.2
-      | matchE sp scrut alts =>
-        simp only [visitExpr]
-        simp only [Expr.ok, Bool.and_eq_true] at he
+def Node.ok : Node → Bool
+  | .expr e => e.ok
+  | .pat _ => true
+  | .variant (some (.expr e)) => e.ok
+  | .variant _ => true
+
+/-- what one step may produce from an `ok` node -/
+def StepOk : Next → Prop
+  | .done o => o ≠ .panic
+  | .go n _ => Node.ok n = true
+
+theorem variant_ok_of_mem {vs : List Variant} (h : ∀ v ∈ vs, Variant.ok v = true) (pos : Nat) :
+    Node.ok (.variant (selectSpanned Variant.span pos vs).2) = true := by
+  cases hsel : (selectSpanned Variant.span pos vs).2 with
+  | none => rfl
+  | some x =>
+    have hx := h x (select_mem _ _ _ _ hsel)
+    cases x <;> first | rfl | exact hx
+
+theorem step_ok (fx : Bool) (pos : Nat) (n : Node) (st : St) (h : Node.ok n = true) :
+    StepOk (step fx pos n st) := by
+  cases n with
+  | pat p =>
+    cases p with
+    | leaf sp b => simp [step, StepOk]
+    | as_ sp b q => simp [step, StepOk, Node.ok]
+    | ctor sp len args =>
+      simp only [step]
+      split
+      · simp [StepOk]
+      · split <;> simp [StepOk, Node.ok]
+    | tuple sp elems =>
+      simp only [step]
+      split <;> simp [StepOk, Node.ok]
+  | variant v =>
+    cases v with
+    | none => simp [step, StepOk]
+    | some x =>
+      cases x with
+      | pat p => simp [step, StepOk, Node.ok]
+      | ident a => simp [step, StepOk]
+      | field sp => simp [step, StepOk]
+      | expr e => simpa [step, StepOk, Node.ok] using h
+  | expr e =>
+    simp only [Node.ok] at h
+    cases e with
+    | leaf sp => simp [step, StepOk]
+    | emptyNode sp => simp [step, StepOk]
+    | error sp => simp [step, StepOk]
+    | one sp cs =>
+      simp only [step]
+      simp only [Expr.ok, Bool.and_eq_true] at h
+      split
+      · rename_i c hc
+        simpa [StepOk, Node.ok] using okList_mem h.2 c (select_mem _ _ _ _ hc)
+      · rename_i hnone
+        exfalso
+        have hne : cs ≠ [] := by
+          intro h'; subst h'; simp at h
+        exact select_total Expr.span pos cs hne hnone
+    | «infix» sp l op r =>
+      simp only [step]
+      simp only [Expr.ok, Bool.and_eq_true] at h
+      split <;> simp [StepOk, Node.ok, h.1, h.2]
+    | proj sp e =>
+      simp only [step]
+      simp only [Expr.ok] at h
+      split <;> simp [StepOk, Node.ok, h]
+    | annotated sp e =>
+      simp only [step]
+      simp only [Expr.ok] at h
+      simp [StepOk, Node.ok, h]
+    | lambda sp args body =>
+      simp only [step]
+      simp only [Expr.ok] at h
+      split <;> simp [StepOk, Node.ok, h]
+    | letb sp isRec binds body =>
+      simp only [step]
+      simp only [Expr.ok, Bool.and_eq_true] at h
+      split
+      · rename_i b hb
+        have hbm : b ∈ binds := select_mem LBind.span pos binds b (by rw [hb])
+        have hbo := okBinds_mem h.1 b hbm
+        simp only [StepOk]
+        apply variant_ok_of_mem
+        intro x hxm
+        simp only [bindVariants, List.mem_cons, List.mem_append, List.mem_map,
+          List.not_mem_nil, or_false] at hxm
+        rcases hxm with rfl | ⟨a, _, rfl⟩ | rfl
+        · rfl
+        · rfl
+        · exact hbo
+      · simp [StepOk, Node.ok, h.2]
+    | matchE sp scrut alts =>
+      simp only [step]
+      simp only [Expr.ok, Bool.and_eq_true] at h
+      split
+      · rename_i hnone
+        exfalso
+        exact select_total _ pos _ (by simp) hnone
+      · rename_i e' he'
+        have hm := select_mem _ _ _ _ he'
+        simp at hm
+        subst hm
+        simpa [StepOk, Node.ok] using h.1
+      · rename_i a ha
+        have hm := select_mem _ _ _ _ ha
+        simp at hm
+        have hao := okAlts_mem h.2 a hm
         split
         · rename_i hnone
           exfalso
           exact select_total _ pos _ (by simp) hnone
+        · simp [StepOk, Node.ok]
         · rename_i e' he'
-          have hm := select_mem _ _ _ _ he'
-          simp at hm
-          subst hm
-          exact ihE _ _ he.1
-        · rename_i a ha
-          have hm := select_mem _ _ _ _ ha
-          simp at hm
-          have hao := okAlts_mem he.2 a hm
-          split
-          · rename_i hnone
-            exfalso
-            exact select_total _ pos _ (by simp) hnone
-          · rename_i p hp
-            have hm2 := select_mem _ _ _ _ hp
-            simp at hm2
-            exact ihP _ _
-          · rename_i e' he'
-            have hm2 := select_mem _ _ _ _ he'
-            simp at hm2
-            subst hm2
-            exact ihE _ _ hao
-      | record sp fields base =>
-        simp only [visitExpr]
-        unfold Expr.ok at he
-        simp only [Bool.and_eq_true] at he
-        apply ihV
-        intro x hx
-        apply recordVariants_ok he.1 _ x (select_mem _ _ _ _ hx)
-        intro b hb
-        subst hb
-        simpa using he.2
+          have hm2 := select_mem _ _ _ _ he'
+          simp at hm2
+          subst hm2
+          simpa [StepOk, Node.ok] using hao
+    | record sp fields base =>
+      simp only [step]
+      unfold Expr.ok at h
+      simp only [Bool.and_eq_true] at h
+      simp only [StepOk]
+      apply variant_ok_of_mem
+      intro x hx
+      apply recordVariants_ok h.1 _ x hx
+      intro b hb
+      subst hb
+      simpa using h.2
+
+theorem run_no_panic (fx : Bool) (pos : Nat) :
+    ∀ (fuel : Nat) (n : Node) (st : St), Node.ok n = true → run fx pos fuel n st ≠ .panic := by
+  intro fuel
+  induction fuel with
+  | zero => intro n st _; simp [run]
+  | succ k ih =>
+    intro n st h
+    have hs := step_ok fx pos n st h
+    simp only [run]
+    split
+    · rename_i o ho; rw [ho] at hs; exact hs
+    · rename_i n' st' ho; rw [ho] at hs; exact ih n' st' hs
+
+theorem no_panic (fx : Bool) (pos : Nat) : ∀ fuel : Nat,
+    (∀ p st, visitPat fx pos fuel p st ≠ .panic) ∧
+    (∀ v st, (∀ x, v = some x → Variant.ok x = true) → visitVariant fx pos fuel v st ≠ .panic) ∧
+    (∀ e st, e.ok = true → visitExpr fx pos fuel e st ≠ .panic) := by
+  intro fuel
+  refine ⟨fun p st => run_no_panic fx pos fuel _ st rfl, ?_, fun e st h => run_no_panic fx pos fuel _ st h⟩
+  intro v st hv
+  apply run_no_panic
+  cases v with
+  | none => rfl
+  | some x => have := hv x rfl; cases x <;> first | rfl | exact this
+
+/-! ### Fuel -/
+
+/-- Once the loop answers without running out of fuel, more fuel changes nothing. -/
+theorem run_mono (fx : Bool) (pos : Nat) :
+    ∀ (fuel : Nat) (n : Node) (st : St), run fx pos fuel n st ≠ .fuel →
+      run fx pos (fuel + 1) n st = run fx pos fuel n st := by
+  intro fuel
+  induction fuel with
+  | zero => intro n st h; simp [run] at h
+  | succ k ih =>
+    intro n st h
+    rw [run] at h
+    rw [run, run]
+    split
+    · rfl
+    · rename_i n' st' ho
+      rw [ho] at h
+      exact ih n' st' h
+
+theorem run_mono_le (fx : Bool) (pos : Nat) (f g : Nat) (n : Node) (st : St)
+    (h : run fx pos f n st ≠ .fuel) (hle : f ≤ g) : run fx pos g n st = run fx pos f n st := by
+  induction g with
+  | zero => have : f = 0 := by omega
+            subst this; rfl
+  | succ k ih =>
+    by_cases hk : f ≤ k
+    · have := ih hk
+      rw [run_mono fx pos k n st (by rw [this]; exact h), this]
+    · have : f = k + 1 := by omega
+      subst this; rfl
 
 end GluonModel.FindPos.Proofs
